@@ -343,6 +343,22 @@ func (s *surf5) safeBody(body []byte) bool {
 	return true
 }
 
+// requestTarget tells which pod a /cni body names (same decode as the daemon: CNIRequest JSON, then k=v;k=v arguments).
+func requestTarget(body []byte) (ns, name string, isAdd, ok bool) {
+	var cr galaxyapi.CNIRequest
+	if err := json.Unmarshal(body, &cr); err != nil {
+		return "", "", false, false
+	}
+	m := map[string]string{}
+	for _, kv := range strings.Split(cr.Env[cniutil.CNI_ARGS], ";") {
+		part := strings.SplitN(kv, "=", 2)
+		if len(part) == 2 {
+			m[strings.TrimSpace(part[0])] = strings.TrimSpace(part[1])
+		}
+	}
+	return m[k8s.K8S_POD_NAMESPACE], m[k8s.K8S_POD_NAME], cr.Env[cniutil.CNI_COMMAND] == cniutil.COMMAND_ADD, true
+}
+
 func (s *surf5) gen(idx int) *Input {
 	g := newG(s.c.t.Seed, 5, idx, s.c.t.Total)
 	d := &cniIn{method: "POST"}
@@ -376,13 +392,30 @@ func (s *surf5) gen(idx int) *Input {
 		default:
 			d.body = s.cniBody(g, "ADD", id, pod, 0)
 		}
-		if d.isAdd && g.rare(3, 0.002) {
-			d.podPresent = false
-			class = "add-pod-absent-from-api"
-		}
 		if !s.safeBody(d.body) {
 			class = "body-valid"
 			d.body = s.cniBody(g, "ADD", id, pod, 0)
+		}
+		// keep pods present: the staged pod follows whatever pod the request names (a missing pod costs a 5 s poll,
+		// which is legitimate but is only paid for a handful of inputs per run)
+		if ns, name, isAdd, ok := requestTarget(d.body); ok && isAdd {
+			if name == "" {
+				if g.rare(2, 0.001) {
+					d.podPresent = false
+					class = "add-pod-name-empty"
+				} else {
+					class = "body-valid"
+					d.body = s.cniBody(g, "ADD", id, pod, 0)
+					ns, name, _, _ = requestTarget(d.body)
+				}
+			}
+			if name != "" {
+				pod.Namespace, pod.Name = ns, name
+			}
+		}
+		if d.isAdd && d.podPresent && g.rare(3, 0.002) {
+			d.podPresent = false
+			class = "add-pod-absent-from-api"
 		}
 		if d.isAdd {
 			d.delBody = s.cniBody(g, "DEL", id, pod, 0)
@@ -510,6 +543,7 @@ func cniOutcome(code int) string {
 func (s *surf5) stagePod(pod *corev1.Pod) func() {
 	ctx := gocontext.TODO()
 	if _, err := s.kube.CoreV1().Pods(pod.Namespace).Create(ctx, pod.DeepCopy(), metav1.CreateOptions{}); err != nil {
+		s.c.run.Count("harness_pod_staging_failed", 1)
 		return func() {}
 	}
 	return func() { _ = s.kube.CoreV1().Pods(pod.Namespace).Delete(ctx, pod.Name, metav1.DeleteOptions{}) }
@@ -537,8 +571,9 @@ func (s *surf5) call(in *Input) (string, string) {
 		}
 		// what resolveNetworks does with the elements
 		for _, n := range nets {
-			_ = n.Name
-			_ = n.InterfaceRequest
+			if n != nil {
+				_ = n.Name
+			}
 		}
 		return outResult, fmt.Sprintf("%d networks", len(nets))
 	case "parse-cni-args":
@@ -594,9 +629,9 @@ func (s *surf5) call(in *Input) (string, string) {
 }
 
 func (s *surf5) probe(in *Input, step func(string)) {
-	step("portmapping-handler-lock (CloseHostports)")
+	step("portmapping-handler-lock(CloseHostports)")
 	s.pmh.CloseHostports("fzprobe_ns1")
-	step("cni DEL of an unknown container through the same handler")
+	step("cni-DEL-of-an-unknown-container-through-the-same-handler")
 	probePod := &corev1.Pod{ObjectMeta: metav1.ObjectMeta{Name: "fzprobe", Namespace: "ns1"}}
 	s.post(s.h, "POST", s.cniBody(nil, "DEL", containerPrefix(s.c.pid)+"probe", probePod, 0))
 	step("VerifCleanIPtables")
